@@ -1,0 +1,62 @@
+// Copyright © 2024 Attestant Limited.
+// Licensed under the Apache License, Version 2.0 (the "License");
+// you may not use this file except in compliance with the License.
+// You may obtain a copy of the License at
+//
+//     http://www.apache.org/licenses/LICENSE-2.0
+//
+// Unless required by applicable law or agreed to in writing, software
+// distributed under the License is distributed on an "AS IS" BASIS,
+// WITHOUT WARRANTIES OR CONDITIONS OF ANY KIND, either express or implied.
+// See the License for the specific language governing permissions and
+// limitations under the License.
+
+//go:build verif
+
+// Package verifhook provides verification hook points.
+// With the 'verif' build tag a verification harness can register a handler that observes,
+// delays, fails or kills the process at each point.
+package verifhook
+
+import (
+	"context"
+	"sync"
+	"sync/atomic"
+)
+
+// Handler is called at each hook point.  A non-nil error is returned to the caller of Point.
+type Handler func(ctx context.Context, site string, keys [][]byte) error
+
+var handler atomic.Value
+
+// Set registers the handler (nil clears it).
+func Set(h Handler) {
+	handler.Store(&h)
+}
+
+// Point is a hook point.
+func Point(ctx context.Context, site string, keys ...[]byte) error {
+	h, _ := handler.Load().(*Handler)
+	if h == nil || *h == nil {
+		return nil
+	}
+
+	return (*h)(ctx, site, keys)
+}
+
+// Done is a hook point for deferred calls.
+func Done(ctx context.Context, site string, keys ...[]byte) {
+	_ = Point(ctx, site, keys...)
+}
+
+var notes sync.Map
+
+// Note is a hook point reporting a value.
+func Note(site string, v any) {
+	notes.Store(site, v)
+}
+
+// Noted returns the last value reported at a site.
+func Noted(site string) (any, bool) {
+	return notes.Load(site)
+}
